@@ -310,7 +310,37 @@ def float_sum_case(draw, tier):
             "spell": draw(st.sampled_from(["method", "np"])), "lz": draw(st.sampled_from([0, 0, 1, 2]))}
 
 
+def body_sequence(case, ctx):
+    """2-5 reductions of different kinds (named, ufunc.reduce, argmax / argmin; either spelling, axis -1 / 1, keepdims) asked
+    of ONE array object in a generated order: every answer equals numpy's per row, whatever was asked before"""
+    global lazy_ra
+    a = case["a"]
+    ra = lazy_ra(np_rows(a), a["dt"], case["lz"])
+    build, lazy_ra = lazy_ra, (lambda *args, **kw: ra)
+    try:
+        for kind, f, spell, axis, keep in case["ops"]:
+            ctx.label("seq:" + kind)
+            sub = dict(case, f=f, spell=spell, axis=axis, keepdims=keep)
+            if kind == "arg" and all(l == 0 for l in a["lens"]):
+                continue
+            {"named": body_named, "ufunc": body_ufunc, "arg": body_arg}[kind](sub, ctx)
+    finally:
+        lazy_ra = build
+
+
+@st.composite
+def sequence_case(draw, tier):
+    a = draw(gen.ragged(tier, min_rows=1, mag=2**40))
+    named = st.tuples(st.just("named"), st.sampled_from(["sum", "prod", "any", "all", "max", "min", "mean"]), st.sampled_from(["method", "np"]),
+                      st.sampled_from([-1, 1]), st.booleans()).map(list)
+    uf = st.tuples(st.just("ufunc"), st.sampled_from([u for u in IDENT_UFUNCS if u not in INEXACT]), st.just("ufunc"), st.sampled_from([-1, 1]), st.just(False)).map(list)
+    arg = st.tuples(st.just("arg"), st.sampled_from(["argmax", "argmin"]), st.sampled_from(["method", "np"]), st.sampled_from([-1, 1]), st.just(False)).map(list)
+    return {"a": a, "ops": draw(st.lists(st.one_of(named, named, uf, arg), min_size=2, max_size=5)), "lz": draw(st.sampled_from(LAZY_CHOICES))}
+
+
 SUBCHECKS = [
+    SubCheck("reduction-sequence", body_sequence, sequence_case, quick=4000, thorough=300000, shards_quick=3,
+             doc="2-5 reductions of different kinds / spellings / axis / keepdims on one array object, each against numpy per row"),
     SubCheck("named", body_named, named_case, quick=12000, thorough=1200000, shards_quick=6,
              doc="sum/prod/any/all (all shapes) and max/min/mean (non-empty rows) via method, np.<name>, ufunc.reduce; keepdims"),
     SubCheck("ufunc-reduce", body_ufunc, ufunc_case, quick=8000, thorough=800000, shards_quick=4,
